@@ -161,12 +161,15 @@ def corrupt_merchants(pre, blocks, rnd):
         return None
     i = rnd.randrange(len(blocks))
     b = blocks[i]
-    cls = rnd.choice(['no-match', 'unknown-property', 'bad-let', 'bad-field', 'bad-priority', 'bad-match-expr', 'bad-let-expr', 'bad-field-expr',
+    cls = rnd.choice(['equals-for-colon', 'no-match', 'unknown-property', 'bad-let', 'bad-field', 'bad-priority', 'bad-match-expr', 'bad-let-expr', 'bad-field-expr',
                       'no-category-no-tags', 'empty-name', 'garbage-line', 'bad-toplevel-var', 'bad-toplevel-transform', 'unsafe-match-expr', 'header-only'])
     whole_file = False
     if cls == 'header-only':
         # the body of a rule was commented out (or deleted), its header stayed: a section without a single property
         b[:] = [b[0]] + rnd.choice([[], ['# ' + l for l in b[1:]], ['', '# nothing yet']])
+    elif cls == 'equals-for-colon':
+        # a property of a rule written `key = value` (inside a rule only `let:` / `field:` lines assign): not a stated property, so not acceptable
+        b.insert(rnd.randint(1, len(b)), rnd.choice(['priority = 90', 'subcategory = Streaming', 'tags = x', 'category = Food', 'merchant = Shop', 'zz = amount > 5']))
     elif cls == 'no-match':
         b[:] = [l for l in b if not l.lower().startswith('match:')]
     elif cls == 'unknown-property':
@@ -396,6 +399,44 @@ def judge_views(rec, rnd, nedits, ncorr):
             rec.violation('views-corruption-raises-other:' + cls, f'{cls}: {type(e).__name__}: {e}', dict(case0, text=t3))
 
 
+def views_disk_probe(rec, tmp):
+    """A views file is read from disk as the text it holds: names, descriptions and string literals with characters that have look-alikes (TM sign, ellipsis,
+    vulgar fraction, full-width letters) arrive unchanged, and a line whose colon is a full-width look-alike is as malformed on disk as in memory."""
+    from tally.section_engine import load_sections, parse_sections, SectionParseError
+    text = ('limit = 100\n\n[Kids\u2122]\ndescription: toys\u2026 and \u00bd price deals\nfilter: category == "Kids\u2122" or subcategory == "\uff21\uff22"\n\n'
+            '[Caf\u00e9 \u2460]\nnote = "\ufb01ne"\nfilter: total > limit\n')
+    path = os.path.join(tmp, 'views-disk.rules')
+    with open(path, 'w', encoding='utf-8') as f:
+        f.write(text)
+    rec.case()
+    rec.count('views_files_read_from_disk_checks')
+    try:
+        a, b = load_sections(path), parse_sections(text)
+        sa = [(x.name, x.filter_expr, tuple(x.variables.items()), x.description) for x in a.sections]
+        sb = [(x.name, x.filter_expr, tuple(x.variables.items()), x.description) for x in b.sections]
+        if sa != sb or sa[0][0] != 'Kids\u2122':
+            rec.violation('view-properties-differ-from-file:on-disk', f'views file read from disk: {sa}; the same text parsed directly: {sb}', {'kind': 'views-disk'})
+            return
+    except Exception as e:
+        rec.violation('valid-views-file-rejected', f'{type(e).__name__}: {e}', {'kind': 'views-disk'})
+        return
+    for bad in (text.replace('filter: total', 'filter\uff1a total'), text.replace('[Kids\u2122]', '\uff3bKids\uff3d')):
+        with open(path, 'w', encoding='utf-8') as f:
+            f.write(bad)
+        verdicts = []
+        for fn, arg in ((load_sections, path), (parse_sections, bad)):
+            try:
+                fn(arg)
+                verdicts.append('accepted')
+            except (SectionParseError, ValueError) as e:
+                verdicts.append('rejected')
+        rec.count('views_files_read_from_disk_checks')
+        if verdicts[0] != verdicts[1]:
+            rec.violation('corruption-accepted:look-alike-punctuation-on-disk', f'a views file with a full-width look-alike in place of `:` / `[ ]` is {verdicts[0]} when read from disk and '
+                          f'{verdicts[1]} when the same text is parsed directly', {'kind': 'views-disk'})
+            return
+
+
 def cli_corrupt(rec, rnd, tmp, k):
     """`tally up` / `tally diag` on a budget whose rules (or views) file is corrupt must tell the user."""
     gen = R.RuleGen(rnd, allow_rows=False)
@@ -465,6 +506,8 @@ def run(rec, shard, nshards, t):
                 rec.sample({'edit': desc, 'edited_file': assemble(p2, b2, sep)[:600]})
         for k in range(max(1, (30 if t == 'quick' else 500) // nshards)):
             cli_corrupt(rec, rnd, tmp, k)
+        if shard == 0:
+            views_disk_probe(rec, tmp)
     finally:
         shutil.rmtree(tmp, ignore_errors=True)
 
@@ -472,7 +515,13 @@ def run(rec, shard, nshards, t):
 def replay(rec, case):
     core.import_tally()
     rnd = core.rng_for('C17', 'replay')
-    if case['kind'] == 'm':
+    if case['kind'] == 'views-disk':
+        tmp = tempfile.mkdtemp(prefix='vt-c17-')
+        try:
+            views_disk_probe(rec, tmp)
+        finally:
+            shutil.rmtree(tmp, ignore_errors=True)
+    elif case['kind'] == 'm':
         for _ in range(10):
             judge_merchants(rec, R.RuleFile.from_json(case['rf']), rnd, 30, 30)
     elif case['kind'] == 'v':
